@@ -77,6 +77,7 @@ fn sys_family(name: &str) -> Option<SysFam> {
         "c05" => Some(fam_sys::c05),
         "c06" => Some(fam_sys::c06),
         "c12" => Some(fam_sys::c12),
+        "ffi_flows" => Some(fam_sys::ffi_flows),
         _ => None,
     }
 }
@@ -84,6 +85,28 @@ fn sys_family(name: &str) -> Option<SysFam> {
 fn main() {
     let args: Vec<String> = std::env::args().collect();
     let fam = args.get(1).cloned().unwrap_or_default();
+    if fam == "native_verify" {
+        // verify, natively, material produced through the C ABI: {format, request, presentation, schemas:[[id,obj]], cred_defs:[[id,obj]]}
+        let j: Value = serde_json::from_str(&std::fs::read_to_string(&args[2]).expect("read")).expect("json");
+        let mut outv = vec![];
+        for f in j["flows"].as_array().cloned().unwrap_or_default() {
+            let schemas = f["schemas"].as_array().unwrap().iter().map(|kv| (anoncreds::data_types::schema::SchemaId::new_unchecked(kv[0].as_str().unwrap()), serde_json::from_value(kv[1].clone()).unwrap())).collect();
+            let cred_defs = f["cred_defs"].as_array().unwrap().iter().map(|kv| (anoncreds::data_types::cred_def::CredentialDefinitionId::new_unchecked(kv[0].as_str().unwrap()), serde_json::from_value(kv[1].clone()).unwrap())).collect();
+            let req: anoncreds::types::PresentationRequest = serde_json::from_value(f["request"].clone()).unwrap();
+            let v = std::panic::catch_unwind(std::panic::AssertUnwindSafe(|| {
+                if f["format"] == "w3c" {
+                    let p: anoncreds::data_types::w3c::presentation::W3CPresentation = serde_json::from_value(f["presentation"].clone()).unwrap();
+                    anoncreds::w3c::verifier::verify_presentation(&p, &req, &schemas, &cred_defs, None, None, None)
+                } else {
+                    let p: anoncreds::types::Presentation = serde_json::from_value(f["presentation"].clone()).unwrap();
+                    anoncreds::verifier::verify_presentation(&p, &req, &schemas, &cred_defs, None, None, None)
+                }
+            }));
+            outv.push(match v { Err(_) => "P", Ok(Ok(true)) => "T", Ok(Ok(false)) => "F", Ok(Err(_)) => "E" });
+        }
+        println!("{}", json!(outv));
+        return;
+    }
     if fam == "tails_child" {
         fam_c19::tails_child(&args[2], args[3].parse().unwrap());
         return;
@@ -122,6 +145,8 @@ fn main() {
         "c09" | "c10" => fam_c09::gen(&mut rng, thorough, &fam, &mut ctx.out),
         "c13" => fam_c13::gen(&mut rng, thorough, &mut ctx.out),
         "c16" => fam_c16::gen(&mut rng, thorough, &mut ctx.out),
+        // C06 unit level: the evaluation cases of the WQL family only
+        "c06u" => fam_c16::gen(&mut rng, thorough, &mut ctx.out).into_iter().filter(|c| c["op"] == "q_eval").collect(),
         "c20" => fam_c20::gen(&mut rng, thorough, &mut ctx.out),
         "c18" | "c19" => vec![],
         other if sys_family(other).is_some() => vec![],
